@@ -723,8 +723,17 @@ pub fn main() {
             file_list,
             names,
         } => {
-            let input_files = get_input_list(file_list, names);
-            let input_names: Vec<&str> = input_files.iter().map(|t| &*t.0).collect();
+            // With -f sample names are given one per line (not as a build file list)
+            let name_list: Vec<String> = match file_list {
+                Some(names_file) => std::fs::read_to_string(names_file)
+                    .expect("Unable to open file_list")
+                    .lines()
+                    .map(|line| line.trim().to_string())
+                    .filter(|line| !line.is_empty())
+                    .collect(),
+                None => names.clone().unwrap(),
+            };
+            let input_names: Vec<&str> = name_list.iter().map(|t| t.as_str()).collect();
             let output_file = output.clone().unwrap_or(skf_file.to_string());
             log::info!("Loading skf file");
             if let Ok(mut ska_array) = MergeSkaArray::<u64>::load(skf_file) {
